@@ -77,7 +77,7 @@ func computeFlow(c *Ctx, s FlowSpec) (*FlowTable, string, error) {
 				if !ok || !re.MatchString(apo.CalleeName(ci.Common())) || messageOnly(apo.CalleeName(ci.Common())) {
 					continue
 				}
-				set[apo.SubstParams(hd.CallDesc(ci.Common()), args)] = true
+				set[apo.SubstParams(hd.CallDesc(ci.Common()), args)] = true // (closures: free variables stay symbolic)
 				if g := ci.Common().StaticCallee(); depth < 2 && !ci.Common().IsInvoke() && apo.Inlinable(g) && g != f && g != fn {
 					var as []string
 					for _, a := range ci.Common().Args {
